@@ -12,6 +12,7 @@ import travlib
 import vlib
 
 PROFILES = ["mixed", "converge", "cleanup", "faulty"]
+REPLAY_MONITORS = ("count", "attempt", "overlap", "uid")
 
 
 def _class_info(spec, cls_idx_line):
@@ -58,7 +59,7 @@ def classify(monitor, item, spec, res):
     cname = res.get("class_names", {}).get(str(cls)) if cls is not None else None
     cdef = next((c for c in spec.get("classes", []) if c["name"] == cname), None)
     if monitor in ("overlap", "count"):
-        mt = int(cfg.get("max_tries", 1) or 1)
+        mt = int(cfg.get("max_tries", 2 if cfg.get("replay") else 1) or 1)
         mct = cfg.get("max_concurrent_tries")
         if mct is not None and int(mct) > max(mt, 1) and monitor == "count":
             return "count:mct>max_tries"
@@ -115,7 +116,7 @@ def _one(args):
     os.chdir(scratch)
     rng = random.Random(seed * 1000003 + idx)
     spec = travlib.gen_spec(rng, profile)
-    if rng.random() < 0.3 and not any(c.get("exclude") for c in spec["classes"]):
+    if rng.random() < 0.3 and not any(c.get("exclude") for c in spec["classes"]) and profile != "replay":
         # flat leaves expanded on demand during the traversal (monitors only, see DESIGN.md 11.2); not combined with
         # worker-asymmetric copies: the harness's stand-in for the lazy parser does not emulate incompatible workers
         spec["lazy"] = True
@@ -169,8 +170,9 @@ def family_run(ctx, monitors, n_cases, profiles=PROFILES, procs=14, corpus=None,
                n_lazyparsed=0):
     scratch = ctx.mkscratch()
     # every 16th case: a timeout budget above 10 000 s with one legitimately long test the other workers wait for ("longwait")
-    jobs = [(ctx.seed + seed_offset, i, "longwait" if i % 16 == 15 else profiles[i % len(profiles)], monitors, scratch)
-            for i in range(n_cases)]
+    # ... and every 16th case replays a previous job (monitors only: replay is not in the traversal model)
+    jobs = [(ctx.seed + seed_offset, i, "longwait" if i % 16 == 15 else "replay" if i % 16 == 7 else profiles[i % len(profiles)],
+             monitors, scratch) for i in range(n_cases)]
     results = []
     # corpus of minimised past cases first
     if corpus and os.path.isdir(corpus):
@@ -235,6 +237,12 @@ def judge(ctx, results, monitors, label="trav"):
         if r["kinds"].get("raise"):
             ctx.count("runs-with-raise")
         ctx.count("executions", r["n_exec"])
+        replayed = bool(spec.get("previous_by_class") or spec["cfg"].get("replay"))
+        if replayed:
+            # replay of a previous job is not in the traversal model (stated gap; the retry RULES under replay are C10's):
+            # no model comparison, and only the monitors whose meaning does not depend on what the previous job did
+            ctx.count("replayed-job")
+            r = dict(r, disagree=None, mon={k: v for k, v in r["mon"].items() if k in REPLAY_MONITORS})
         if substring_ids(spec) and not r["disagree"]:
             ctx.count("model-agrees:worker-id-substring-of-another")
         if r["disagree"] and substring_ids(spec) and not model_covers_substring_case(spec, r):
